@@ -355,6 +355,13 @@ def run(ctx):
                "a watermark whose keyspace has nothing in any memtable is satisfied without looking at its tables" if ok6
                else "a keyspace whose memtables are empty but whose tables lag behind the watermark (clear, empty flush result, compaction dropping the newest tombstone) blocks the eviction forever: every later journal piles up behind it (journal count never returns to one)")
 
+    # ---- cross-cutting disciplines (rules/discipline.py)
+    from .. import discipline as D
+    # journal deletion errors surface
+    D.error_discipline(ctx, "R-C10.8", scope=lambda f: f.startswith(("journal::manager::", "<journal::manager::")))
+    # every watermark is captured and checked
+    D.loops_visit_all(ctx, "R-C10.9", only=("journal::manager::JournalManager::maintenance", "supervisor::Supervisor::build_seqno_map", "recovery::recover_sealed_memtables"))
+
     # ---- borrowed obligations (mechanisms owned by other properties that this property's verdict also rests on)
     # journal maintenance trusts is_deleted: the flag is raised only after the deletion is durable
     ctx.borrow("C12", ["R-C12.1"], "R-C10.7")
